@@ -57,8 +57,10 @@ HAZ = {
     'associate_alias': (['cp', 'cpu'], 'constprop:assignment-through-associate-name-not-seen'),
     'zero_trip_const': (['cp', 'cpu'], 'constprop:assignment-in-zero-trip-constant-loop-taken-as-executed'),
     'zero_trip_inner': (['cp', 'cpu'], 'constprop:assignment-in-inner-loop-with-input-bounds-taken-as-executed'),
-    'exit_in_loop': (['cp', 'cpu'], 'constprop:assignment-after-conditional-exit-taken-as-executed'),
-    'cycle_in_loop': (['cp', 'cpu'], 'constprop:assignment-after-conditional-cycle-taken-as-executed'),
+    'exit_in_loop': (['cp'], 'constprop:assignment-after-conditional-exit-taken-as-executed'),
+    'cycle_in_loop': (['cp'], 'constprop:assignment-after-conditional-cycle-taken-as-executed'),
+    'unroll_cycle': (['cpu'], 'constprop:unroll:cycle-in-unrolled-loop'),
+    'unroll_exit': (['cpu'], 'constprop:unroll:exit-in-unrolled-loop'),
     'real_kind_fold': (['cp', 'cpu'], 'constprop:folded-real-literal-loses-kind'),
     'internal_present': (['cp', 'cpu'], 'constprop:routine-with-internal-procedure'),
     'simp_int_quot_sum': (['cp', 'cpu'], 'constprop:simplify:integer-quotient-distributed-over-sum'),
